@@ -188,10 +188,11 @@ def _workloads(task, note):
         from framework.props import capacity
 
         for h in ((4, 7, 16) if SAN else (4, 7, 16, 64, 128)):
-            for heur in ("min", "max", "split_low", "mid"):
+            for heur in ("min", "max", "split_low", "mid", "mid_odd"):
                 for calg in ("bc", "shaving"):
                     for d in (h - 3, h - 2, h - 1, h):
-                        if d < 1 or (heur == "mid" and d % 2) or time.time() > deadline:
+                        if d < 1 or (heur == "mid" and d % 2) or (heur == "mid_odd" and d % 2 == 0) or \
+                                time.time() > deadline:
                             continue
                         ctx = {"stack_case": [h, d, heur, calg]}
                         progress.mark(ctx)
